@@ -145,3 +145,36 @@ class RecAcc:
 
     def has_nonlocal_moves(self):
         return False
+
+
+class CosWF(GaussWF):
+    """lattice-periodic closed-form wave function: ln Psi = A sum_e sum_d cos(G_d . r_e) (+ optional Bloch phase k.r)"""
+
+    def __init__(self, lattice, amp=0.6, kvec=None):
+        GaussWF.__init__(self, alpha=0.0, kvec=kvec)
+        self.G = 2 * np.pi * np.linalg.inv(np.asarray(lattice, dtype=float)).T  # rows: reciprocal vectors
+        self.amp = amp
+
+    def _psi1(self, r):
+        ph = r @ self.G.T
+        v = np.exp(self.amp * np.sum(np.cos(ph), axis=-1))
+        if self.kvec is not None:
+            v = v * np.exp(1j * (r @ self.kvec))
+        return v
+
+    def _grad1(self, r):
+        ph = r @ self.G.T
+        g = -self.amp * np.sin(ph) @ self.G
+        g = g.astype(self.dtype)
+        if self.kvec is not None:
+            g = g + 1j * self.kvec
+        return g
+
+    def gradient_laplacian(self, e, epos):
+        g = self._grad1(epos.configs)
+        ph = epos.configs @ self.G.T
+        lap_ln = -self.amp * np.sum(np.cos(ph) * np.sum(self.G * self.G, axis=1), axis=-1)
+        return g.T, lap_ln + np.sum(g * g, axis=-1)
+
+    def pgradient(self):
+        return {}
